@@ -569,6 +569,75 @@ def oracle_hessian(ctx, exe, cases, stats, rng, max_blocks=400):
             stats.add("hessian ell%d" % dim)
 
 
+def oracle_sweep(ctx, exe, cases, stats, rng, max_blocks=300, npts=21):
+    """sweeps of one coordinate of an elliptic block across all three zones (normal coordinate from deep in the
+    bottom zone to deep in the top zone; one tangential coordinate through zero): the returned cost must be
+    discretely convex along the sweep (non-negative second differences) and the returned force must be monotone
+    (its negative is the derivative of a convex function).  A misplaced zone threshold or a jump of cost or force
+    anywhere on the sweep violates this."""
+    items, meta = [], []
+    nb = 0
+    for ci, c in enumerate(cases):
+        cfg, jar = c["cfg"], c["jar"]
+        ells = [b for b in cfg["blocks"] if b[0] == "ell"]
+        if not ells or nb >= max_blocks:
+            continue
+        kind, s, dim, cc = rng.choice(ells)
+        con = cfg["con"][cc]
+        mu, fr = con["mu"], con["fr"]
+        U = [jar[s + j] * fr[j - 1] for j in range(1, dim)]
+        Tn = math.sqrt(sum(u * u for u in U))
+        if not (Tn > 0 and mu > 0):
+            continue
+        nb += 1
+        big = max(mu, 1.0 / mu, 1.0)
+        # normal coordinate: N from -3*T*big to 3*T*big
+        lo, hi = -3 * Tn * big / mu, 3 * Tn * big / mu
+        for coord, rngab in ((s, (lo, hi)), (s + rng.randrange(1, dim), None)):
+            if rngab is None:
+                j = coord - s
+                w = 3 * max(Tn, abs(jar[s] * mu) * big) / fr[j - 1]
+                a, b = -w, w
+            else:
+                a, b = rngab
+            grid = [a + (b - a) * k / (npts - 1) for k in range(npts)]
+            for g in grid:
+                jj = list(jar); jj[coord] = g
+                items.append((cfg, jj, 0))
+            meta.append((ci, coord, grid, s, dim))
+    outs = run_raw(ctx, exe, items)
+    if outs is None:
+        return
+    stats.evals += len(items)
+    p = 0
+    for ci, coord, grid, s, dim in meta:
+        c = cases[ci]
+        os_ = outs[p:p + len(grid)]; p += len(grid)
+        cs = [o["cost"] for o in os_]
+        fs = [o["force"][coord] for o in os_]
+        cm = max(abs(x) for x in cs)
+        fm = max(abs(x) for x in fs)
+        bad = None
+        for k in range(1, len(grid) - 1):
+            d2 = cs[k - 1] - 2 * cs[k] + cs[k + 1]
+            if not d2 >= -1e-9 * (cm + 1e-300):
+                bad = {"what": "cost second difference", "at": grid[k], "value": d2, "costs": [hx(x) for x in cs[k - 1:k + 2]]}
+                break
+        if bad is None:
+            for k in range(len(grid) - 1):
+                if not fs[k + 1] <= fs[k] + 1e-9 * (fm + 1e-300):
+                    bad = {"what": "force not monotone", "between": [grid[k], grid[k + 1]], "forces": [hx(fs[k]), hx(fs[k + 1])]}
+                    break
+        key = "sweep ell%d %s" % (dim, "normal" if coord == s else "tangential")
+        if bad:
+            ctx.violation("impl_violation", dict(case_json(c), coordinate=coord, grid=[hx(g) for g in grid]),
+                          expected="cost convex and force non-increasing along a sweep of one coordinate through all zones", observed=bad,
+                          theorem="C12_convex / C12_C1_force", signature={"site": "mj_constraintUpdate_impl", "oracle": "sweep"})
+            stats.add(key + " FAILED")
+        else:
+            stats.add(key)
+
+
 # --------------------------------------------------------------------------- Coq literals / correspondence
 def fl(x):
     return F.fhex(x)
